@@ -1329,7 +1329,7 @@ def ref_cycle_snippet(rnd):
     """-> (label, declarations to put inside a schema, extra schemas text)"""
     k = rnd.choice([1, 1, 2, 2, 3])
     shape = rnd.choice(["constant", "constant", "constant", "derived", "type-rename", "type-aggregate", "type-select", "function",
-                        "entity-attr", "subtype", "interface", "interface", "inverse", "where", "include"])
+                        "entity-attr", "subtype", "interface", "interface", "inverse", "where", "include", "select-direct", "select-direct"])
     extra = ""
     if shape == "constant":
         ns = _ring(rnd, "zc", k)
@@ -1365,6 +1365,25 @@ def ref_cycle_snippet(rnd):
         lst = "zl%d" % rnd.randrange(1000)
         decl = "".join("TYPE %s = SELECT (%s%s);\nEND_TYPE;\n" % (ns[i], ns[(i + 1) % k] if i else lst, rnd.choice(["", ", " + ns[0]])) for i in range(k))
         decl += "TYPE %s = %s %s;\nEND_TYPE;\n" % (lst, rnd.choice(["LIST OF", "SET OF", "ARRAY [1:2] OF"]), ns[-1] if k > 1 else ns[0])
+    elif shape == "select-direct":
+        # selects that list each other directly (an illegal ring, the checker reports it) and further selects that reach the ring
+        # from outside; the names vary so that the order in which the types are visited varies
+        stems = ["choice", "top", "aa", "pick", "z0", "x", "outer", "k", "m", "w", "a", "b", "sel", "q9"]
+        k2 = max(k, 1)
+        ns = []
+        while len(ns) < k2 + 2:
+            n = rnd.choice(stems) + rnd.choice(["", "_r", "1", "_t"]) + str(rnd.randrange(1000))
+            if n not in ns:
+                ns.append(n)
+        ring, outer = ns[:k2], ns[k2:]
+        filler = "ze%d" % rnd.randrange(1000)
+        decl = "ENTITY %s;\nEND_ENTITY;\n" % filler
+        parts = ["TYPE %s = SELECT (%s%s);\nEND_TYPE;\n" % (ring[i], ring[(i + 1) % k2], rnd.choice(["", ", " + filler])) for i in range(k2)]
+        parts += ["TYPE %s = SELECT (%s%s);\nEND_TYPE;\n" % (o, rnd.choice(ring), rnd.choice(["", ", " + filler])) for o in outer[:rnd.choice([1, 2])]]
+        rnd.shuffle(parts)
+        decl += "".join(parts)
+        if rnd.random() < 0.5:
+            decl += "ENTITY ze%d;\n  a : %s;\nEND_ENTITY;\n" % (rnd.randrange(1000), rnd.choice(outer[:1] + ring))
     elif shape == "function":
         ns = _ring(rnd, "zf", k)
         par = rnd.choice(["", "(x : INTEGER)"])
@@ -1471,6 +1490,12 @@ def _shape_identifier(n):
     return _wrap("ENTITY e" + "x" * n + ";\n  a" + "y" * n + " : INTEGER;\nEND_ENTITY;")
 
 
+def _shape_identifier_in_interface(n):
+    kw = ["USE FROM", "REFERENCE FROM"][n % 2]
+    item = ["", " (x)", " (x AS y)"][n % 3]
+    return "SCHEMA zs;\n%s s%s%s;\nENTITY e;\nEND_ENTITY;\nEND_SCHEMA;\n" % (kw, "x" * n, item)
+
+
 def _shape_nested_functions(n):
     head = "".join("FUNCTION f%d(a : INTEGER) : INTEGER;\n" % i for i in range(n))
     tail = "".join("  RETURN (a);\nEND_FUNCTION;\n" for _ in range(n))
@@ -1547,7 +1572,8 @@ STRETCH = {
     "embedded-remark": (_shape_embedded_remark, 100000), "nested-remark": (_shape_nested_remark, 200),
     "string-literal": (_shape_string, 100000), "encoded-string-literal": (_shape_encoded, 100000),
     "binary-literal": (_shape_binary, 100000), "integer-literal": (_shape_integer, 100000), "real-literal": (_shape_real, 100000),
-    "identifier": (_shape_identifier, 100000), "nested-functions": (_shape_nested_functions, 200),
+    "identifier": (_shape_identifier, 100000), "identifier-in-interface-clause": (_shape_identifier_in_interface, 100000),
+    "nested-functions": (_shape_nested_functions, 200),
     "nested-parentheses": (_shape_nested_parens, 10000), "nested-aggregate-initialiser": (_shape_nested_aggregate_init, 10000),
     "nested-aggregate-type": (_shape_nested_aggregate_type, 1000), "nested-if": (_shape_nested_if, 1000),
     "nested-query": (_shape_nested_query, 200), "oneof-list": (_shape_oneof, 5000), "attributes": (_shape_many_attrs, 10000),
